@@ -131,4 +131,8 @@ def run(db, chk):
                                function=ap.bn, construct="weights-normalisation",
                                detail="" if ok3 else "weights %r" % (ws_,), sample=(n_sc % 173 == 3),
                                extra={"unit": uname})
+    chk.absorb(db, "C09", {"C09-P2"}, "C05-M4", "base levels / mask in force are exactly those last set and the "
+               "router keeps no state between updates (shared with C09-P2)",
+               pred=lambda o: "set_base_levels" in o["instance"] or "set_mask" in o["instance"]
+               or "multi_flow_router::apply" in o["instance"], min_instances=3)
     chk.count_scenarios(n_sc, True)
